@@ -12,6 +12,7 @@ Section Restore.
   Variable lnext : nat -> heap -> L -> option (heap * L * res).
   Variable lclose : heap -> L -> heap.
   Variable prog : P -> code X E P * E.
+  Variable gho : E -> nat.
 
   (* THE RESTORING CONTRACT of a leaf iterator.  LInv h0 l hc: "l was created under the heap h0
      and, with the heap now being hc, is consistent with it". *)
@@ -27,11 +28,11 @@ Section Restore.
   Notation code := (code X E P).
   Notation iclose := (iclose lclose).
   Notation unwind := (unwind lclose).
-  Notation exec := (exec mkleaf lnext lclose prog).
-  Notation cont := (cont mkleaf lnext lclose prog).
-  Notation loop := (loop mkleaf lnext lclose prog).
-  Notation inext := (inext mkleaf lnext lclose prog).
-  Notation nexts := (nexts mkleaf lnext lclose prog).
+  Notation exec := (exec mkleaf lnext lclose prog gho).
+  Notation cont := (cont mkleaf lnext lclose prog gho).
+  Notation loop := (loop mkleaf lnext lclose prog gho).
+  Notation inext := (inext mkleaf lnext lclose prog gho).
+  Notation nexts := (nexts mkleaf lnext lclose prog gho).
 
   (* the same notion for every iterator and for a frame's stack of open loops: each open
      iterator was created under the heap at which the enclosing one is suspended *)
@@ -126,7 +127,7 @@ Section Restore.
       - eapply IHc; eauto.
       - inversion H; subst. split; [constructor; exact K|split; [exact I|intros N; congruence]].
       - eapply IHe; [|exact H]. constructor. exact K.
-      - eapply IHl; [exact K| |exact H]. unfold mkiter. destruct (ex e h); constructor. apply L_new.
+      - eapply IHl; [exact K| |exact H]. unfold mkiter. destruct (ex (knxt gho k e) e h); constructor. apply L_new.
       - destruct (pop_loop k) as [[it k']|] eqn:Pk.
         + destruct (pop_loop_inv K Pk) as [h1 [K1 I1]].
           rewrite (iclose_restores I1) in H. eapply IHc; eauto.
@@ -194,6 +195,43 @@ Section Restore.
   Theorem frame_close_restores h0 it hc : Inv h0 it hc -> iclose hc it = h0.
   Proof. apply iclose_restores. Qed.
 
+  (* the consumer throws an exception into a suspended (or not yet started) generator object:
+     every open loop is unwound on the way out, the heap is h0 when the exception comes back *)
+  Theorem consumer_throw_restores h0 it hc : Inv h0 it hc -> ithrow lclose hc it = (h0, IDone, RRaise).
+  Proof. intros I. unfold ithrow. rewrite (iclose_restores I). reflexivity. Qed.
+
+  (* ANY consumer behaviour: after an arbitrary sequence of next / close / throw operations the
+     generator object is still consistent with the heap h0 of its creation, so closing or dropping it
+     gives back h0; directly after a close or throw the heap IS h0 *)
+  Theorem fdrive_restores n d : forall ops h0 it h hf itf rs,
+    Inv h0 it h -> fdrive mkleaf lnext lclose prog gho n d h it ops = Some (hf, itf, rs) ->
+    Inv h0 itf hf /\ iclose hf itf = h0 /\
+    (match rev ops with (FClose | FThrow) :: _ => hf = h0 | _ => True end).
+  Proof.
+    induction ops as [|o r IH]; intros h0 it h hf itf rs I H; cbn [fdrive] in H.
+    - inversion H; subst. repeat split; auto. apply (iclose_restores I).
+    - assert (T: forall x, match rev r with (FClose | FThrow) :: _ => x = h0 | _ => True end ->
+                 (r = [] -> match o with FNext => True | _ => x = h0 end) ->
+                 match rev (o :: r) with (FClose | FThrow) :: _ => x = h0 | _ => True end).
+      { intros x A B. cbn [rev]. destruct (rev r) as [|y ys] eqn:Er.
+        - assert (r = []) by (destruct r; auto; cbn in Er; destruct (rev r); discriminate). cbn [app].
+          destruct o; auto; apply B; auto.
+        - cbn [app]. exact A. }
+      destruct o.
+      + destruct (inext n d h it) as [[[h' it'] rr]|] eqn:N; [|discriminate].
+        destruct (fdrive mkleaf lnext lclose prog gho n d h' it' r) as [[[hf' itf'] rs']|] eqn:D; [|discriminate].
+        inversion H; subst. destruct (frame_next_restores _ _ I N) as [I' _].
+        destruct (IH _ _ _ _ _ _ I' D) as [A [B C]]. repeat split; auto. apply T; auto.
+      + destruct (fdrive mkleaf lnext lclose prog gho n d (iclose h it) IDone r) as [[[hf' itf'] rs']|] eqn:D; [|discriminate].
+        inversion H; subst. rewrite (iclose_restores I) in D.
+        destruct (IH _ _ _ _ _ _ (Inv_done h0) D) as [A [B C]]. repeat split; auto. apply T; auto.
+        intros ->. cbn [fdrive] in D. inversion D; reflexivity.
+      + destruct (fdrive mkleaf lnext lclose prog gho n d (iclose h it) IDone r) as [[[hf' itf'] rs']|] eqn:D; [|discriminate].
+        inversion H; subst. rewrite (iclose_restores I) in D.
+        destruct (IH _ _ _ _ _ _ (Inv_done h0) D) as [A [B C]]. repeat split; auto. apply T; auto.
+        intros ->. cbn [fdrive] in D. inversion D; reflexivity.
+  Qed.
+
   (* a frame (not a leaf) that is entered (recursion limit not yet reached) and does not yield
      has ALREADY restored the heap when it returns or when the exception leaves it: every
      enclosing loop was unwound on the way out *)
@@ -251,23 +289,26 @@ Section Restore.
      raised (anywhere below it), or abandoned after k answers and closed/dropped - the heap is h *)
   Corollary query_restores n d k h c e hf itf ys r :
     nexts n d k h (IFresh c e) = Some (hf, itf, ys, r) ->
-    iclose hf itf = h /\ (r <> RYield -> d <> 0 -> hf = h)
+    iclose hf itf = h /\ (r <> RYield -> hf = h)
     /\ Forall (fun y => exists nw, y = nw ++ h) ys.
   Proof.
     intros H. destruct (frame_restores _ _ _ (Inv_fresh h c e) H) as [I' [C [S' [F _]]]].
-    repeat split; auto. intros NY ND.
-    eapply nexts_frame; [exact ND|apply Inv_fresh|exact Logic.I|exact H|exact NY].
+    repeat split; auto. intros NY. destruct d as [|d'].
+    - (* recursion limit reached before the frame is entered: nothing happened *)
+      destruct k as [|k]; cbn [GenMachine.nexts] in H; [inversion H; congruence|].
+      destruct n as [|n']; [discriminate|]. rewrite inext_S in H. inversion H; reflexivity.
+    - eapply nexts_frame; [apply Nat.neq_succ_0|apply Inv_fresh|exact Logic.I|exact H|exact NY].
   Qed.
 
   (* re-running the same query on the heap it left gives the same answers again
      (the machine is a function of heap and generator object, and the heap is restored) *)
   Corollary rerun_same n d k h c e hf itf ys r :
-    d <> 0 -> r <> RYield ->
+    r <> RYield ->
     nexts n d k h (IFresh c e) = Some (hf, itf, ys, r) ->
     nexts n d k hf (IFresh c e) = Some (hf, itf, ys, r).
   Proof.
-    intros ND NY H. destruct (query_restores _ _ _ _ _ _ H) as [_ [A _]].
-    pose proof (A NY ND) as Eh. subst hf. exact H.
+    intros NY H. destruct (query_restores _ _ _ _ _ _ H) as [_ [A _]].
+    pose proof (A NY) as Eh. subst hf. exact H.
   Qed.
 End Restore.
 
@@ -307,37 +348,39 @@ Qed.
 Section UnifyMachine.
   Variable E P : Type.
   Variable prog : P -> code (term * term) E P * E.
-  Notation unexts := (nexts umkleaf ulnext ulclose prog).
-  Notation uinext := (inext umkleaf ulnext ulclose prog).
+  Variable gho : E -> nat.
+  Notation unexts := (nexts umkleaf ulnext ulclose prog gho).
+  Notation uinext := (inext umkleaf ulnext ulclose prog gho).
   Notation uiclose := (iclose (L:=gen) (X:=term*term) (E:=E) (P:=P) ulclose).
 
   Theorem query_restores_unify n d k h c e hf itf ys r :
     unexts n d k h (IFresh c e) = Some (hf, itf, ys, r) ->
-    uiclose hf itf = h /\ (r <> RYield -> d <> 0 -> hf = h)
+    uiclose hf itf = h /\ (r <> RYield -> hf = h)
     /\ Forall (fun y => exists nw, y = nw ++ h) ys.
-  Proof. apply (@query_restores gen _ E P umkleaf ulnext ulclose prog inv U_new U_next U_close U_ext). Qed.
+  Proof. apply (@query_restores gen _ E P umkleaf ulnext ulclose prog gho inv U_new U_next U_close U_ext). Qed.
 
   Theorem rerun_same_unify n d k h c e hf itf ys r :
-    d <> 0 -> r <> RYield ->
+    r <> RYield ->
     unexts n d k h (IFresh c e) = Some (hf, itf, ys, r) ->
     unexts n d k hf (IFresh c e) = Some (hf, itf, ys, r).
-  Proof. apply (@rerun_same gen _ E P umkleaf ulnext ulclose prog inv U_new U_next U_close U_ext). Qed.
+  Proof. apply (@rerun_same gen _ E P umkleaf ulnext ulclose prog gho inv U_new U_next U_close U_ext). Qed.
 End UnifyMachine.
 
 Section UnifyMachine2.
   Variable E P : Type.
   Variable prog : P -> code (term * term) E P * E.
-  Notation uinext := (inext umkleaf ulnext ulclose prog).
+  Variable gho : E -> nat.
+  Notation uinext := (inext umkleaf ulnext ulclose prog gho).
   Notation uiclose := (iclose (L:=gen) (X:=term*term) (E:=E) (P:=P) ulclose).
   Notation UInv := (@Inv gen (term*term) E P inv).
 
   Theorem frame_next_restores_unify n d h0 it h h' it' r :
     UInv h0 it h -> uinext n d h it = Some (h', it', r) ->
     UInv h0 it' h' /\ (r = RStop -> h' = h0) /\ uiclose h' it' = h0.
-  Proof. apply (@frame_next_restores gen _ E P umkleaf ulnext ulclose prog inv U_new U_next U_close). Qed.
+  Proof. apply (@frame_next_restores gen _ E P umkleaf ulnext ulclose prog gho inv U_new U_next U_close). Qed.
 
   Theorem throw_restores_unify n d h0 it h h' it' r :
     UInv h0 it h -> is_frame it -> d <> 0 ->
     uinext n d h it = Some (h', it', r) -> r <> RYield -> h' = h0 /\ it' = IDone.
-  Proof. apply (@throw_restores gen _ E P umkleaf ulnext ulclose prog inv U_new U_next U_close). Qed.
+  Proof. apply (@throw_restores gen _ E P umkleaf ulnext ulclose prog gho inv U_new U_next U_close). Qed.
 End UnifyMachine2.
